@@ -117,24 +117,30 @@ func runC20(r *mc.Run) {
 	type errKind struct {
 		name string
 		mk   func(call int) error
+		hdr  map[string][]string // header returned together with the failure (nil: the stale-looking default)
 	}
 	errKinds := []errKind{
-		{"", nil},
-		{"context.DeadlineExceeded", func(int) error { return context.DeadlineExceeded }},
-		{"wrapped-context.DeadlineExceeded", func(int) error {
+		{name: ""},
+		{name: "context.DeadlineExceeded", mk: func(int) error { return context.DeadlineExceeded }},
+		{name: "wrapped-context.DeadlineExceeded", mk: func(int) error {
 			return &url.Error{Op: "Get", URL: "https://example.test/x", Err: fmt.Errorf("dial: %w", context.DeadlineExceeded)}
 		}},
-		{"context.Canceled", func(int) error { return fmt.Errorf("request: %w", context.Canceled) }},
-		{"os.ErrDeadlineExceeded", func(int) error { return &net.OpError{Op: "read", Net: "tcp", Err: os.ErrDeadlineExceeded} }},
-		{"io.EOF", func(int) error { return io.EOF }},
-		{"io.ErrUnexpectedEOF-then-timeout", func(call int) error {
+		{name: "context.Canceled", mk: func(int) error { return fmt.Errorf("request: %w", context.Canceled) }},
+		{name: "os.ErrDeadlineExceeded", mk: func(int) error { return &net.OpError{Op: "read", Net: "tcp", Err: os.ErrDeadlineExceeded} }},
+		{name: "io.EOF", mk: func(int) error { return io.EOF }},
+		{name: "io.ErrUnexpectedEOF-then-timeout", mk: func(call int) error {
 			if call%2 == 1 {
 				return io.ErrUnexpectedEOF
 			}
 			return c20timeoutErr{}
 		}},
-		{"error-named-timeout", func(int) error { return errors.New("timeout") }},
-		{"nil-typed-url-error", func(int) error { return &url.Error{Op: "Get", URL: "u", Err: errors.New("status 404")} }},
+		{name: "error-named-timeout", mk: func(int) error { return errors.New("timeout") }},
+		{name: "nil-typed-url-error", mk: func(int) error { return &url.Error{Op: "Get", URL: "u", Err: errors.New("status 404")} }},
+		// what a failing attempt hands back besides its error has no bearing on how long the getter waits
+		{name: "failure-with-Retry-After:0", mk: func(int) error { return errors.New("503") }, hdr: map[string][]string{"Retry-After": {"0"}}},
+		{name: "failure-with-Retry-After:past-date", mk: func(int) error { return errors.New("503") }, hdr: map[string][]string{"Retry-After": {"Wed, 21 Oct 2015 07:28:00 GMT"}}},
+		{name: "failure-with-Retry-After:86400", mk: func(int) error { return errors.New("429") }, hdr: map[string][]string{"Retry-After": {"86400"}}},
+		{name: "failure-with-Retry-After:garbage+Date", mk: func(int) error { return errors.New("503") }, hdr: map[string][]string{"Retry-After": {"soon", "-5"}, "Date": {"x"}, "Connection": {"close"}}},
 	}
 	// The clock is global to the process: executions are run one at a time.
 	for gi, gr := range grids {
@@ -189,6 +195,9 @@ func runC20(r *mc.Run) {
 						inner := &c20inner{failFirst: k, latency: lat,
 							header: cloneHdr(sh.header), body: cloneBytes(sh.body),
 							failHdr: map[string][]string{"X-Stale": {"stale"}}, failBody: []byte("stale body"), failErr: ek.mk, firstLat: firstLat}
+						if ek.hdr != nil {
+							inner.failHdr = cloneHdr(ek.hdr)
+						}
 						var getter *trust.RetryHTTPSGetter
 						if gr.def {
 							dg, ok := trust.DefaultHTTPSGetter().(*trust.RetryHTTPSGetter)
